@@ -70,11 +70,105 @@ def oracle_all(ctx, stream):
             ctx.violation(found[0], found[1], found[2], True)
 
 
+def split_cases(lines):
+    cases, cur = [], []
+    for l in lines:
+        if l.startswith("case") and cur:
+            cases.append(cur)
+            cur = []
+        cur.append(l)
+    if cur:
+        cases.append(cur)
+    return cases
+
+
+def timing_eval(ctx, stream, ops_path, tag):
+    """One execution of an ops file on the real code and on the model.
+    Returns (ran, ncases, nops, mismatch-or-None, [(case_lines, verdict_line)], impl_path, log).
+    mismatch covers (a) the line-by-line comparison and (b), for `debounce`, the trace acceptance: the event
+    trace the harness observed is fed to the Lean driver, which must find it to be a run of the model."""
+    from verif import Mismatch
+    ok, impl, model, log = ctx.run_pair(stream, ops_path, tag)
+    if not ok:
+        return False, 0, 0, None, [], impl, log
+    nc, nops, mism = ctx.compare(stream, ops_path, impl, model)
+    ops = ctx.read_lines(ops_path)
+    out = ctx.read_lines(impl)
+    fails = []
+    cases = split_cases(ops)
+    k = 0
+    for cl in cases:
+        for l in cl:
+            if k < len(out) and "verdict=FAIL" in out[k]:
+                fails.append((cl, out[k]))
+            k += 1
+    if stream == "debounce" and mism is None:
+        tpath = impl + ".trace"
+        traces = [l for l in ctx.read_lines(tpath)] if os.path.exists(tpath) else []
+        traces = [l for l in traces if l.startswith("trace")]
+        ends = sum(1 for l in ops if l.strip() == "end")
+        if len(traces) != ends:
+            mism = Mismatch(stream, ops[-1:], 0, "<%d trace lines for %d cases>" % (len(traces), ends), "<trace missing>", nc)
+        else:
+            t2 = os.path.join(ctx.work, "%s.%s.trace.ops" % (stream, tag))
+            t, lines2 = 0, []
+            for l in ops:
+                if l.strip() == "end":
+                    lines2.append(traces[t])
+                    t += 1
+                lines2.append(l)
+            with open(t2, "w") as f:
+                f.write("\n".join(lines2) + "\n")
+            m2 = t2 + ".model"
+            rc, err = ctx.drv(stream, t2, m2)
+            res = ctx.read_lines(m2) if rc == 0 else []
+            if len(res) < len(lines2):
+                mism = Mismatch(stream, ops[-1:], 0, "<trace acceptance>", "<lean driver stopped: %s>" % err[-300:], nc)
+            else:
+                ctx.count("debounce.traces.accepted", sum(1 for a, b in zip(lines2, res) if a.startswith("trace") and b.startswith("accept")))
+                cn = 0
+                for idx, (a, b) in enumerate(zip(lines2, res)):
+                    if a.startswith("case"):
+                        cn += 1
+                    if a.startswith("trace") and not b.startswith("accept"):
+                        mism = Mismatch(stream, cases[cn - 1], len(cases[cn - 1]) - 1,
+                                        "observed " + a[:3000], "the observed trace is not a run of the debounce model: " + b, cn)
+                        break
+    return True, nc, nops, mism, fails, impl, log
+
+
+def timing_shrink(ctx, stream, case_lines, rounds=30):
+    """Delta-debug a failing case of a timing stream (fails = disagreement, rejected trace or FAIL verdict)."""
+    head, body = case_lines[0], list(case_lines[1:])
+
+    def fails(lines):
+        p = os.path.join(ctx.work, "%s.shrink.ops" % stream)
+        with open(p, "w") as f:
+            f.write("\n".join([head] + lines) + "\n")
+        ran, _, _, m, fv, _, _ = timing_eval(ctx, stream, p, "shrink")
+        return ran and (m is not None or bool(fv))
+
+    n, i = 0, 0
+    while i < len(body) and n < rounds:
+        if body[i].strip() == "end":
+            i += 1
+            continue
+        cand = body[:i] + body[i + 1:]
+        n += 1
+        if fails(cand):
+            body = cand
+        else:
+            i += 1
+    return [head] + body
+
+
 def timing_stream(ctx, stream, ncases, attempts=3):
-    """T-diff for the streams that run real goroutines and timers (debounce, sender).  Same contract as
-    ctx.diff_stream, plus: a disagreement only counts when it reproduces - the whole file is run again
-    (up to `attempts` times) and must disagree every time; anything else is recorded as a flake counter.
-    The streams report only schedule-independent facts, so a flake is not expected at all."""
+    """T-diff for the streams that run real goroutines and timers (debounce, sender).
+    * A property verdict of the run itself (`verdict=FAIL:<clause>` in the harness answer: loss, weakening, two pushes
+      in flight, leaked token / processing entry, never pushed, ...) is a violation at once - no reproduction asked.
+    * A disagreement between model and implementation (incl. a rejected trace) is a broken tie; since the compared
+      lines are schedule-independent none is expected, and it only counts when the case disagrees again when run
+      alone (twice) or the whole file disagrees in every attempt."""
     from verif import HARNESS
     st = {"cases": 0, "ops": 0, "agree": True}
     ctx.streams[stream] = st
@@ -96,26 +190,40 @@ def timing_stream(ctx, stream, ncases, attempts=3):
         files.append(("generated", ops))
     all_ok = True
     for tag, ops in files:
-        mism, ran = None, False
+        mism, ran, nc, nops, impl, log = None, False, 0, 0, None, ""
         for attempt in range(attempts):
-            ok, impl, model, log = ctx.run_pair(stream, ops, "run")
-            if not ok:
+            r, nc_, nops_, mism, fv, impl_, log = timing_eval(ctx, stream, ops, "run")
+            if not r:
                 mism = None
                 continue
-            ran = True
-            nc, nops, mism = ctx.compare(stream, ops, impl, model)
+            ran, nc, nops, impl = True, nc_, nops_, impl_
+            if fv:
+                # the real code violated a clause of the property in this run
+                cl, line = fv[0]
+                clause = line.split("verdict=FAIL:")[1].split()[0].split("@")[0]
+                all_ok = False
+                st["agree"] = False
+                os.environ["C02_PATIENCE_MS"] = "2000"
+                try:
+                    small = timing_shrink(ctx, stream, cl)
+                finally:
+                    os.environ.pop("C02_PATIENCE_MS", None)
+                ctx.violation("%s:%s" % (stream, clause),
+                              "push-request %s handling violates clause '%s' on the real code" % (stream, clause),
+                              {"stream": stream, "ops": small, "unshrunk_ops": cl, "harness_answer": line, "source": tag}, True)
+                mism = None
+                break
             if mism is None:
                 break
             ctx.log("stream %s (%s) attempt %d: differs at case %d op %d\n   impl : %s\n   model: %s"
-                    % (stream, tag, attempt + 1, mism.case_no, mism.line_in_case, mism.impl_line, mism.model_line))
-            # does this one case disagree again when run alone, twice?
+                    % (stream, tag, attempt + 1, mism.case_no, mism.line_in_case, mism.impl_line[:400], mism.model_line[:400]))
             rp = os.path.join(ctx.work, "%s.repro.ops" % stream)
             with open(rp, "w") as f:
                 f.write("\n".join(mism.case_lines) + "\n")
             again = 0
             for _ in range(2):
-                ok3, impl3, model3, _l = ctx.run_pair(stream, rp, "repro")
-                if ok3 and ctx.compare(stream, rp, impl3, model3)[2] is not None:
+                r3, _, _, m3, fv3, _, _ = timing_eval(ctx, stream, rp, "repro")
+                if r3 and (m3 is not None or fv3):
                     again += 1
             if again == 2:
                 break
@@ -134,14 +242,13 @@ def timing_stream(ctx, stream, ncases, attempts=3):
         st["agree"] = False
         os.environ["C02_PATIENCE_MS"] = "2000"  # the case already failed reproducibly; do not wait 10 s per probe
         try:
-            small = ctx.shrink(stream, mism.case_lines, max_rounds=40)
+            small = timing_shrink(ctx, stream, mism.case_lines)
         finally:
             os.environ.pop("C02_PATIENCE_MS", None)
         p = os.path.join(ctx.work, "%s.min.ops" % stream)
         with open(p, "w") as f:
             f.write("\n".join(small) + "\n")
-        ok2, impl2, model2, _ = ctx.run_pair(stream, p, "min")
-        m2 = ctx.compare(stream, p, impl2, model2)[2] if ok2 else None
+        r2, _, _, m2, _, _, _ = timing_eval(ctx, stream, p, "min")
         rep = (m2 or mism).to_json()
         rep["source"] = tag
         found = oracle(ctx, stream, small, rep)
@@ -149,8 +256,8 @@ def timing_stream(ctx, stream, ncases, attempts=3):
             ctx.violation(found[0], found[1], found[2], True)
         else:
             ctx.tie_broken("correspondence:%s" % stream,
-                           "model and implementation disagree on stream %s (reproduced %d times); the property oracle found no failing input"
-                           % (stream, attempts), rep)
+                           "model and implementation disagree on stream %s (reproduced); the property oracle found no failing input"
+                           % stream, rep)
     ctx.log("stream %s: %d cases, %d ops, %s" % (stream, st["cases"], st["ops"], "agree" if all_ok else "DIFFER"))
     return all_ok
 
